@@ -614,7 +614,11 @@ class BareGitStore(GitStore):
             try:
                 tree = self.repo.object_store[ctag.encode("ascii")]
             except KeyError as exc:
-                raise InvalidCTag(ctag) from exc
+                if ctag.encode("ascii") != Tree().id:
+                    raise InvalidCTag(ctag) from exc
+                # get_ctag() of a store without commits: the empty tree,
+                # which nobody has written to the object store
+                tree = Tree()
         for name, mode, sha in tree.iteritems():
             name = name.decode(DEFAULT_ENCODING)
             if name == CONFIG_FILENAME:
